@@ -21,6 +21,12 @@ struct NoiseOnly {
     pub takers: NoiseAgent,
 }
 
+#[derive(AgentSet)]
+struct RandomOnly {
+    pub near: RandomAgents,
+    pub far: RandomAgents,
+}
+
 #[derive(MarketAgentSet)]
 struct MixedMarket {
     pub random0: RandomMarketAgents,
@@ -54,13 +60,29 @@ fn momentum(tick: u32) -> MomentumParams {
     MomentumParams { tick_size: tick, p_cancel: 0.1, trade_vol: 40, decay: 0.6, demand: 5.0, scale: 0.5, order_ratio: 1.0, price_dist_mu: 0.0, price_dist_sigma: 1.0 }
 }
 
-pub const N_CONFIGS: usize = 4;
+pub const N_CONFIGS: usize = 5;
 
 /// one complete simulation through the real runner; (digest, number of orders, number of trades)
 pub fn digest(config: usize, seed: u64, progress: bool) -> (u64, usize, usize) {
     let mut h = Fnv::new();
-    let steps = 40 + 20 * (config as u64 % 3);
+    // step counts on both sides of 100 and 200, odd ones included (a progress bar that advances in strides must not change how many steps run)
+    // (the long, odd run uses random agents only: with the noise / momentum agents a long run can reach the recorded clamp finding of C16 and abort)
+    let steps = [40u64, 60, 80, 60, 255][config % N_CONFIGS];
     match config % N_CONFIGS {
+        4 => {
+            let mut env: Env = Env::new(0, 2, 100_000, true);
+            let mut agents = RandomOnly { near: RandomAgents::new(10, (45, 55), (10, 30), 2, 0.6), far: RandomAgents::new(6, (30, 70), (5, 50), 2, 0.3) };
+            sim_runner(&mut env, &mut agents, seed, steps, progress);
+            let orders = env.get_orders();
+            let no = orders.len();
+            for o in orders.iter() { h.order(o); }
+            let nt = env.get_trades().len();
+            for t in env.get_trades().iter() { h.trade(t); }
+            h.records(env.get_level_2_data_history());
+            for v in env.get_trade_vols().iter() { h.u(*v as u64); }
+            h.u(env.get_orderbook().get_time());
+            (h.0, no, nt)
+        }
         0 | 1 => {
             let tick = if config % N_CONFIGS == 0 { 1 } else { 2 };
             let mut env: Env = Env::new(0, tick, 100_000, true);
